@@ -451,6 +451,20 @@ def scenarios(tier="quick"):
     add("send+recv:compid-mismatch", a, [("send", T0 + 125, APP("a")), rx(a, "D", [(58, "x")], target="WRONG")])
     hb = active(test_req_id=T0 // 1000 - 5)
     add("send+recv:heartbeat-wrongid", hb, [("send", T0 + 125, APP("a")), rx(hb, "0", [(112, "77")])])
+    # ---- the reader's ResendRequest reply is the LAST outbound activity (no sender repairs the store afterwards):
+    #      reply ending in a multi-number GapFill (session-level rows / holes / declined), in a retransmission,
+    #      bounded; alone, next to an idle watchdog, next to a sender that is refused
+    refused = ("send", T0 + 125, ("1", [(112, "9")]))  # TestRequest outside send_test_req(): FIXConnectionError
+    for shape, begin in (("sess", "3"), ("mixed", "3"), ("holes", "3"), ("app", "4"), ("resent", "3")):
+        j = active(shape=shape)
+        add(f"recv:resend-last({shape})", j, [rx(j, "2", [(7, begin), (16, "0")])], toggles=1)
+        add(f"recv+tick:resend-last({shape})", j, [rx(j, "2", [(7, begin), (16, "0")]), ("tick", T0)], toggles=0)
+        add(f"send+recv:resend-last({shape})+refused", j, [refused, rx(j, "2", [(7, begin), (16, "0")])], toggles=0)
+    add("recv:resend-last(declined)", a, [rx(a, "2", [(7, "3"), (16, "0")])], sr="d5,6", toggles=1)
+    add("recv:resend-last(all declined)", a, [rx(a, "2", [(7, "4"), (16, "0")])], sr="none", toggles=1)
+    add("recv:resend-last(bounded)", sess, [rx(sess, "2", [(7, "3"), (16, "4")])], toggles=1)
+    aws = active(state=12, max_resend=9, shape="sess")
+    add("recv:resend-last(while awaiting)", aws, [rx(aws, "2", [(7, "3"), (16, "0")], seq=5)], toggles=1)
     # ---- reader + tick (the connection is torn down under the reader)
     add("recv+tick:logon-high+testreq-timeout", S.with_journal(S.AbsConn(
         state=6, role=2, next_in=1, next_out=1, sock=True, test_req_id=T0 // 1000 - 61, last_time=0), "empty"),
@@ -797,7 +811,8 @@ def correspondence(ctx):
                     "quick: all schedules of {2 senders} x9, {sender + tick} x4, {sender + reader with one inbound frame: "
                     "Logon x3, TestRequest, ResendRequest x10 (1-3 journaled messages, declined, session rows, holes, bounded EndSeqNo, "
                     "EndSeqNo < BeginSeqNo, beyond, while awaiting), high seqnum, app, Heartbeat x2, Logout, GapFill, SequenceReset, CompID mismatch} and "
-                    "{reader + tick}, each with the transport initially free / paused, branching over every enabled letter "
+                    "{reader + tick}, {reader alone / + idle tick / + refused sender whose ResendRequest reply is the last outbound "
+                    "activity: journals with session-level rows, holes, PossDup copies, declined rows} x19, each with the transport initially free / paused, branching over every enabled letter "
                     "at the first 6 nodes that offer a choice and completed first-enabled afterwards, plus uniformly random "
                     "maximal schedules of the long scenarios; thorough: the same scenario list extended by eleven 3-task "
                     "scenarios, explored twice per (scenario, back-pressure), one process each: (a) bound 16 with state hashing "
@@ -947,7 +962,12 @@ def oracle(ctx, disagreements, broken):
             if f:
                 failures.append(f)
         cached = getattr(ctx, "c14_failures", None)
-        if cached is not None and not broken:
+        known = {k["signature"] for k in C.load_findings(PROP)}
+        concrete = any(f["signature"] not in known for f in failures) or \
+            any(f["signature"] not in known for f in (cached or []))
+        if cached is not None and (not broken or concrete):
+            # the executions of the correspondence run were judged already; when the tie is broken and these
+            # (or the disagreeing schedules above) already give a concrete failing schedule, that is the replay
             failures += cached
             stats["explored"] = getattr(ctx, "c14_nstat", {}).get("judged", 0)
         else:
